@@ -18,7 +18,7 @@ TypeK == {"opaque", "struct", "enum"}
 SelfK == {"none", "ref", "mut", "val"}
 ParamK == {"same_ref", "same_mut", "same_opt", "same_val", "prim"}
 RetK == {"unit", "write", "self", "res_self", "opt_self", "prim", "opt_prim", "opt_unit", "res_unit", "res_prim",
-         "other_box", "opt_other_box"}
+         "other_box", "opt_other_box", "ordering"}
 Marker == {"constructor", "named_constructor", "getter", "setter", "stringifier", "comparison", "iterator", "iterable",
            "indexer", "add", "add_assign"}
 Flags == [constructors : BOOLEAN, fallible_constructors : BOOLEAN, static_accessors : BOOLEAN]
@@ -67,6 +67,7 @@ Errs(m, f) ==
          \cup (IF Succ(m) = "write" THEN {} ELSE {"stringifier_returns_string"})
     [] m.mk = "comparison" ->
          Count(m, 1) \cup NeedSelf(m, TRUE)
+         \cup (IF m.ret = "ordering" THEN {} ELSE {"comparator_returns_ordering"})    \* (found by replay: checked in type_context.rs)
          \cup (IF m.self # "none" /\ m.params # <<>>
                THEN LET p == m.params[1] IN
                     (IF (m.tk = "opaque" /\ p \in {"same_ref", "same_mut", "same_opt"}) \/ (m.tk # "opaque" /\ p = "same_val")
